@@ -24,7 +24,7 @@ const (
 
 var propRules = map[string]*PropSpec{
 	"C01": {
-		Rules:       []string{"A1.kernel", "A6.kernel", "F1", "F8.bitmap", "F8.run", "F10", "F3.32", "A1.api32"},
+		Rules:       []string{"A1.kernel", "A6.kernel", "F1", "F8.bitmap", "F8.run", "F10", "F3.32", "A1.api32", "A2.32", "A3.32", "F11"},
 		Explanation: explBase + " C01: kernels never write operands, results are fresh, every kind pairing is dispatched, results are re-typed at the 4096 threshold and run results re-minimised, empty results are elided, x.Op(x) is guarded.",
 		Decided: []string{
 			"operands of every container kernel are never written (3 kinds x all methods) and non-in-place kernels leave the receiver unchanged",
@@ -34,6 +34,8 @@ var propRules = map[string]*PropSpec{
 			"in-place Xor/AndNot test rb == x2 before writing",
 			"And/AndNot/Xor results are stored only when non-empty",
 			"static And/Or/Xor/AndNot and the cardinality/predicate shortcuts never change their operands' contents",
+			"in-place forms write only owned containers and keep flags with moved containers, so the result cannot depend on (or corrupt) copy-on-write sharing",
+			"predicates and cardinality shortcuts never read the copy-on-write flags",
 		},
 		NotDecided: []string{"kernel arithmetic (merge loops, galloping, run interval algebra, word masks)", "popcount assembly vs portable equality", "key-merge cursor logic", "numeric results of *Cardinality / Intersects"},
 		Technique:  techMix,
@@ -52,9 +54,9 @@ var propRules = map[string]*PropSpec{
 		Technique:  techOwn,
 	},
 	"C03": {
-		Rules:       []string{"A1.api32", "A1.kernel", "F1"},
+		Rules:       []string{"A1.api32", "A1.kernel", "F1", "F11"},
 		Explanation: explBase + " C03: the clause 'queries never modify the bitmap' is decided for every exported read-only function; kind dispatch of the query paths is exhaustive.",
-		Decided:     []string{"no exported query (cardinality, rank/select, extrema, Contains, Equals, ToArray, Checksum, Stats, iterators' constructors ...) changes the contents of its receiver or argument", "read-only container kernels never write receiver or operand", "type switches on the query paths handle all kinds"},
+		Decided:     []string{"no exported query (cardinality, rank/select, extrema, Contains, Equals, ToArray, Checksum, Stats, iterators' constructors ...) changes the contents of its receiver or argument", "read-only container kernels never write receiver or operand", "type switches on the query paths handle all kinds", "no scalar query (Equals, Contains, Rank, cardinalities ...) reads the copy-on-write flags"},
 		NotDecided:  []string{"every numeric result (rank, select, cardinalities, extrema)", "Checksum invariance under Clone / round trip", "AVX2 vs portable popcount"},
 		Technique:   techOwn,
 	},
@@ -66,7 +68,7 @@ var propRules = map[string]*PropSpec{
 		Technique:   "static analysis: CFG reachability after the stop edge (go/ssa), AST type-switch exhaustiveness, ownership summaries",
 	},
 	"C05": {
-		Rules:       []string{"B1", "B2", "B5", "L2", "L5", "A4"},
+		Rules:       []string{"B1", "B2", "B5", "L2", "L5", "A4", "F8.bitmap"},
 		Explanation: explBase + " C05: error propagation on every encode/decode path, byte accounting of writers and readers, bounded reads, agreement of size prediction / writer / reader on the offset-header predicate and payload sizes, and flagging of zero-copy payloads.",
 		Decided: []string{
 			"no error of a writer/reader call is dropped, and no return reached after a failed call reports nil",
@@ -75,6 +77,7 @@ var propRules = map[string]*PropSpec{
 			"the offset-header predicate of size prediction, writer and reader agree (and with the spec constant 4)",
 			"per-kind payload size: serializedSizeInBytes == bytes written == offset increment == bytes consumed by the reader",
 			"zero-copy decoded payloads are flagged copy-on-write",
+			"kernels never hand out a bitmap container of <= 4096 values, which the writer would refuse",
 		},
 		NotDecided: []string{"equality of contents after a round trip", "reader behaviour on arbitrary chunkings beyond io.ReadAtLeast's contract"},
 		Technique:  techErr + "; affine size expressions over go/ssa",
@@ -109,9 +112,9 @@ var propRules = map[string]*PropSpec{
 		Technique:   "static analysis: taint propagation of caller-owned slices over go/ssa + ownership typestate",
 	},
 	"C09": {
-		Rules:       []string{"F3.32", "F8.bitmap", "F8.run", "F2", "V1", "V2"},
+		Rules:       []string{"F3.32", "F8.bitmap", "F8.run", "F2", "V1", "V2", "A6.kernel", "A2.32", "A3.32"},
 		Explanation: explBase + " C09: the producer side of each Validate conjunct that has a structural form (no empty chunk stored, array/bitmap threshold, runs minimised, lazy cardinality repaired) and the validator's own conjunct table.",
-		Decided:     []string{"no may-empty result is stored without an emptiness test", "bitmap containers are returned only behind cardinality > 4096; run containers reach slots minimised", "lazy kernels that write a bitmap invalidate or recompute the cached cardinality and every lazy aggregate is repaired before it is returned", "Validate calls every per-kind validator on every container and each listed conjunct is present"},
+		Decided:     []string{"no may-empty result is stored without an emptiness test", "bitmap containers are returned only behind cardinality > 4096; run containers reach slots minimised", "lazy kernels that write a bitmap invalidate or recompute the cached cardinality and every lazy aggregate is repaired before it is returned", "Validate calls every per-kind validator on every container and each listed conjunct is present", "containers are never shared unflagged between bitmaps (a later mutation of one would silently invalidate the other)"},
 		NotDecided:  []string{"key order and strict sortedness of payloads after arbitrary kernels (value level)"},
 		Technique:   techMix,
 	},
@@ -123,30 +126,30 @@ var propRules = map[string]*PropSpec{
 		Technique:   techErr + "; taint of decoded sizes",
 	},
 	"C11": {
-		Rules:       []string{"F9", "F2", "A1.api32", "A1.slices", "A2.32", "A3.32"},
+		Rules:       []string{"F9", "F2", "A1.api32", "A1.slices", "A2.32", "A3.32", "A6.kernel", "U1"},
 		Explanation: explBase + " C11: singleton behaviour of the aggregate siblings, lazy->repair discipline, inputs and the caller's slice unchanged, scratch containers never end up in the result.",
-		Decided:     []string{"every aggregate of one bitmap returns a fresh bitmap", "every lazy union result is repaired before it is returned / sent; lazy kernels mark the cardinality invalid", "aggregates never change their inputs' contents nor the caller's slice", "kernel results never alias the argument, so AndAny's reused scratch containers cannot be stored in x"},
+		Decided:     []string{"every aggregate of one bitmap returns a fresh bitmap", "every lazy union result is repaired before it is returned / sent; lazy kernels mark the cardinality invalid", "aggregates never change their inputs' contents nor the caller's slice", "kernel results never alias the argument, so AndAny's reused scratch containers cannot be stored in x", "no 16-bit arithmetic in the key-range partition of ParOr"},
 		NotDecided:  []string{"key-range partition arithmetic of ParOr", "heap grouping", "that the fold is the right fold", "worker-count independence of the result"},
 		Technique:   techMix,
 	},
 	"C12": {
-		Rules:       []string{"P1", "P3", "P4", "PT", "A1.api32"},
+		Rules:       []string{"P1", "P3", "P4", "PT", "A1.api32", "A2.32", "A3.32"},
 		Explanation: explBase + " C12: protocol skeleton only: WaitGroup pairing, single close by the creator, range-workers released on every path, pool typestate, workers never change input contents.",
-		Decided:     []string{"every goroutine preceded by wg.Add(1) runs a function whose every path calls wg.Done (deferred)", "every channel is closed at most once, by the function that created it, and every for-range worker's channel is closed on every path to the spawner's return", "pooled adapters are Reset after Get, Put exactly once on every path and not retained", "parallel aggregates never change input contents (A1)"},
+		Decided:     []string{"every goroutine preceded by wg.Add(1) runs a function whose every path calls wg.Done (deferred)", "every channel is closed at most once, by the function that created it, and every for-range worker's channel is closed on every path to the spawner's return", "pooled adapters are Reset after Get, Put exactly once on every path and not retained", "parallel aggregates never change input contents: every payload write in the workers' call trees goes through an owned container (A1/A2/A3)"},
 		NotDecided:  []string{"absence of data races in general", "result determinism across schedules", "count-based termination arguments (sent == expected)", "GOMAXPROCS effects — these need a race detector / model checker, a different family"},
 		Technique:   "static analysis: goroutine/channel/WaitGroup/pool skeleton rules over go/ssa CFG (must-pass-through, at-most-once)",
 	},
 	"C13": {
-		Rules:       []string{"L4", "B1", "B3", "A4", "T1"},
+		Rules:       []string{"L4", "L1", "B1", "B3", "A4", "T1"},
 		Explanation: explBase + " C13: the three frozen writers, the size predictor and the reader agree on type codes, count fields, element sizes and arena order; FreezeTo checks the buffer before writing; errors propagate; the view is flagged.",
 		Decided:     []string{"type codes bitmap=1/array=2/run=3 and count encodings agree across FreezeTo, WriteFrozenTo, GetFrozenSizeInBytes and frozenView and with the CRoaring layout constants", "FreezeTo's size check dominates every write into buf and the returned count is the checked size", "WriteFrozenTo propagates every writer error", "frozen payloads are flagged copy-on-write, keys are copied", "container count bounded (<= 65536) before allocation"},
 		NotDecided:  []string{"byte equality of the three writers on a given input", "Equal after view"},
 		Technique:   "static analysis: sibling table extraction from type switches (AST + go/constant), dominance",
 	},
 	"C14": {
-		Rules:       []string{"F8.run", "F8.bitmap", "L7"},
+		Rules:       []string{"F8.run", "F8.bitmap", "F3.32", "L7"},
 		Explanation: explBase + " C14: the representation-minimisation clause the bound relies on, and the documented constants of BoundSerializedSizeInBytes.",
-		Decided:     []string{"no chunk is left as an un-minimised run container after a mutation or a set operation; shrinking bitmap results are converted at 4096", "BoundSerializedSizeInBytes is the documented affine form (8 bytes header + per-chunk overhead + 2 bytes/value)"},
+		Decided:     []string{"no chunk is left as an un-minimised run container after a mutation or a set operation; shrinking bitmap results are converted at 4096", "no empty chunk is left in the table (it would cost header bytes for zero values)", "BoundSerializedSizeInBytes is the documented affine form (8 bytes header + per-chunk overhead + 2 bytes/value)"},
 		NotDecided:  []string{"the inequality itself for every history"},
 		Technique:   techMix,
 	},
